@@ -157,6 +157,9 @@ def arrays_in(x):
 
 
 # ------------------------------------------------------------------------------------------------ input builders
+MASKED = st.sampled_from([False, True, 'open'])
+
+
 def _fs(shape, seed, folded=False, masked=False, pop_ids=False, layout='C', integer=False):
     import dadi
     rs = np.random.RandomState(seed)
@@ -164,9 +167,10 @@ def _fs(shape, seed, folded=False, masked=False, pop_ids=False, layout='C', inte
     if integer:
         d = np.round(d)
     m = np.zeros(tuple(shape), bool)
-    if masked:
+    if masked is True:
         m = rs.rand(*shape) < 0.15
-    m.flat[0] = m.flat[-1] = True
+    if masked != 'open':      # 'open': nothing masked, not even the corners (Spectrum(..., mask_corners=False), unmask_all())
+        m.flat[0] = m.flat[-1] = True
     fs = dadi.Spectrum(lay(d, layout), mask=m, mask_corners=False, pop_ids=['a', 'b', 'c', 'd', 'e'][:len(shape)] if pop_ids else None)
     if folded:
         fs = fs.fold()
@@ -239,7 +243,7 @@ class Project:
     @staticmethod
     def strategy(draw):
         shape = draw(small_shape)
-        return dict(shape=shape, seed=draw(seed_st), to=[draw(st.integers(1, s - 1)) for s in shape], folded=draw(st.booleans()), masked=draw(st.booleans()))
+        return dict(shape=shape, seed=draw(seed_st), to=[draw(st.integers(1, s - 1)) for s in shape], folded=draw(st.booleans()), masked=draw(MASKED))
 
     @staticmethod
     def build(a, layout):
@@ -255,7 +259,7 @@ class Methods:
     @staticmethod
     def strategy(draw):
         shape = draw(small_shape)
-        return dict(shape=shape, seed=draw(seed_st), masked=draw(st.booleans()), which=draw(st.sampled_from(['fold', 'marginalize', 'stats', 'reorder', 'combine', 'arith'])))
+        return dict(shape=shape, seed=draw(seed_st), masked=draw(MASKED), which=draw(st.sampled_from(['fold', 'marginalize', 'stats', 'reorder', 'combine', 'arith'])))
 
     @staticmethod
     def build(a, layout):
@@ -357,7 +361,7 @@ class Likelihood:
     @staticmethod
     def strategy(draw):
         shape = draw(small_shape)
-        return dict(shape=shape, seed=draw(seed_st), folded=draw(st.booleans()), masked=draw(st.booleans()),
+        return dict(shape=shape, seed=draw(seed_st), folded=draw(st.booleans()), masked=draw(MASKED),
                     which=draw(st.sampled_from(['ll', 'll_multinom', 'scaling', 'residuals', 'll_per_bin'])))
 
     @staticmethod
@@ -542,11 +546,12 @@ class Perturb:
 class Sample:
     @staticmethod
     def strategy(draw):
-        return dict(shape=draw(small_shape), seed=draw(seed_st), rseed=draw(st.integers(0, 5)), which=draw(st.sampled_from(['sample', 'scramble', 'fixed_size'])))
+        return dict(shape=draw(small_shape), seed=draw(seed_st), rseed=draw(st.integers(0, 5)), which=draw(st.sampled_from(['sample', 'scramble', 'fixed_size'])),
+                    masked=draw(st.sampled_from([False, 'open'])))
 
     @staticmethod
     def build(a, layout):
-        return dict(fs=_fs(a['shape'], a['seed'], False, False, True, layout, integer=True))
+        return dict(fs=_fs(a['shape'], a['seed'], False, a.get('masked', False), True, layout, integer=True))
 
     @staticmethod
     def call(a, i):
